@@ -124,6 +124,10 @@ pub enum Op {
         /// compilation with a debug session; the log file itself is not compared
         #[serde(default, skip_serializing_if = "std::ops::Not::not")]
         debug_log: bool,
+        /// how the (first) file reaches the tool: 0 = the directory is named, 1 = the file
+        /// itself is named (`project/q.prql`), 2 = its text is piped to standard input (`-`)
+        #[serde(default, skip_serializing_if = "is_zero8")]
+        input: u8,
         #[serde(default)]
         hash_base: u64,
         #[serde(default)]
@@ -133,6 +137,10 @@ pub enum Op {
     SetEnv { value: Option<String> },
     /// change the process's working directory (a host may); only at quiescent points
     SetCwd { dir: String },
+}
+
+fn is_zero8(x: &u8) -> bool {
+    *x == 0
 }
 
 impl Op {
@@ -699,9 +707,10 @@ fn do_op(op: &Op) -> Obs {
             main_path,
             rewrite,
             debug_log,
+            input,
             hash_base,
             readdir_seed,
-        } => cli_process(files, args, main_path.as_deref(), *rewrite, *debug_log, *hash_base, *readdir_seed),
+        } => cli_process(files, args, main_path.as_deref(), *rewrite, *debug_log, *input, *hash_base, *readdir_seed),
         Op::SetCwd { dir } => {
             let _ = std::env::set_current_dir(dir);
             Obs::ok(String::new())
@@ -732,6 +741,7 @@ fn cli_process(
     main_path: Option<&str>,
     rewrite: bool,
     debug_log: bool,
+    input: u8,
     hash_base: u64,
     readdir_seed: u64,
 ) -> Obs {
@@ -768,14 +778,36 @@ fn cli_process(
     if debug_log {
         cmd.arg("--debug-log").arg("debug-log.json");
     }
-    cmd.arg("project");
+    match (input, files.first()) {
+        (1, Some((p, _))) => {
+            cmd.arg(PathBuf::from("project").join(decode_path(p)));
+        }
+        (2, Some(_)) => {
+            cmd.arg("-");
+        }
+        _ => {
+            cmd.arg("project");
+        }
+    }
     if !rewrite {
         cmd.arg("-");
         if let Some(m) = main_path {
             cmd.arg(m);
         }
     }
-    cmd.stdin(std::process::Stdio::null());
+    // standard input is a file (the first source, or an empty one): no pipe to feed
+    let stdin_path = top.join("stdin.txt");
+    let stdin_text = if input == 2 { files.first().map(|f| f.1.as_str()).unwrap_or("") } else { "" };
+    let stdin = std::fs::write(&stdin_path, stdin_text).and_then(|_| std::fs::File::open(&stdin_path));
+    match stdin {
+        Ok(f) => {
+            cmd.stdin(f);
+        }
+        Err(e) => {
+            let _ = std::fs::remove_dir_all(&top);
+            return fail("stdin", e);
+        }
+    }
     let out = match cmd.output() {
         Ok(o) => o,
         Err(e) => {
